@@ -1,6 +1,6 @@
 //! C03 — guaranteed Reed-Solomon correction capacity in every symbol size (fault enumeration).
 use crate::ctx::{guard, Case, Ctx};
-use crate::gen::rswords::{apply, pattern, valid_codeword};
+use crate::gen::rswords::{apply, pattern, pattern_with_syndromes, structured_syndromes, valid_codeword};
 use crate::json::J;
 use crate::refimpl::cat::{self, Row, CAT};
 use crate::refimpl::gf::Rs;
@@ -211,7 +211,7 @@ pub fn run(ctx: &mut Ctx) {
             }
         }
         // E3: random patterns, every weight 1..t, all blocks at once
-        let n3 = ctx.budget(if r.total() > 300 { 16 * 25 } else { 16 * 60 }, if r.total() > 300 { 16 * 1500 } else { 16 * 6000 });
+        let n3 = ctx.budget(if r.total() > 300 { 16 * 100 } else { 16 * 400 }, if r.total() > 300 { 16 * 2500 } else { 16 * 10000 });
         for i in 0..n3 as usize {
             let cw = valid_codeword(&mut ctx.rng, r, &rs, 3 - (i % 2));
             let weights: Vec<usize> = match i % 4 {
@@ -232,8 +232,23 @@ pub fn run(ctx: &mut Ctx) {
             }
             eval(ctx, r, &cw, &e, "E3_random_weight_le_t");
         }
+        // E5: patterns of weight w <= t whose first w syndromes are *structured* (geometric, sparse, constant,
+        // low-order recurrences ...): still within the guarantee, but they drive the locator search through
+        // its singular branches with long jumps, which random error values practically never do
+        let n5 = ctx.budget(if r.total() > 300 { 16 * 30 } else { 16 * 120 }, if r.total() > 300 { 16 * 800 } else { 16 * 3000 });
+        for i in 0..n5 as usize {
+            let cw = valid_codeword(&mut ctx.rng, r, &rs, 3);
+            let b = ctx.rng.below(r.blocks);
+            let w = if i % 3 == 0 { t } else { ctx.rng.range(2.min(t), t) };
+            let target = structured_syndromes(&mut ctx.rng, w);
+            if let Some(e) = pattern_with_syndromes(&mut ctx.rng, r, b, w, &target) {
+                eval(ctx, r, &cw, &e, "E5_structured_syndromes_weight_le_t");
+            } else {
+                ctx.count("E5.unrealisable_target_skipped");
+            }
+        }
         // E4: pixel level
-        let n4 = ctx.budget(16 * 6, 16 * 300);
+        let n4 = ctx.budget(16 * 25, 16 * 500);
         for i in 0..n4 as usize {
             let len = ctx.rng.below(r.data / 2 + 1);
             let msg: Vec<u8> = (0..len).map(|_| *ctx.rng.pick(b"ABCDEFGHIJ0123456789 abc,.")).collect();
